@@ -6,6 +6,7 @@ func init() {
 	vpHarnesses["vpH_C02_single"] = vpH_C02_single
 	vpHarnesses["vpH_C02_limit"] = vpH_C02_limit
 	vpHarnesses["vpH_C02_empty"] = vpH_C02_empty
+	vpHarnesses["vpH_C02_longlists"] = vpH_C02_longlists
 }
 
 // C02 O1: for every event and every single filter, Match == NIP-01 predicate.
@@ -81,5 +82,47 @@ func vpH_C02_empty() {
 	m := NewReqFiltersEventLimitMatcher([]*ReqFilter{})
 	vpAssert(!m.Match(e), "C02.empty-match")
 	vpAssert(!m.LimitMatch(e), "C02.empty-limitmatch")
+	vpReach("end")
+}
+
+// Longer condition lists (3..9 pairwise distinct values, in any order): the
+// decision still equals membership. Guards against size-dependent strategies
+// (sorting, binary search, small-list fast paths).
+func vpH_C02_longlists() {
+	n := 3 + vpChoice("n", 7)
+	f := &ReqFilter{}
+	e := &Event{ID: vpSym1("id"), Pubkey: vpSym1("pk"), Kind: vpInt64("kind"), CreatedAt: vpInt64("at"), Tags: []Tag{{vpSym1("tname"), vpSym1("tval")}}}
+	which := vpChoice("field", 4)
+	switch which {
+	case 0:
+		for i := 0; i < n; i++ {
+			k := vpInt64("k")
+			for _, o := range f.Kinds {
+				vpAssume(o != k)
+			}
+			f.Kinds = append(f.Kinds, k)
+		}
+	default:
+		var l []string
+		for i := 0; i < n; i++ {
+			v := vpSym1("v")
+			for _, o := range l {
+				vpAssume(o != v)
+			}
+			l = append(l, v)
+		}
+		switch which {
+		case 1:
+			f.IDs = l
+		case 2:
+			f.Authors = l
+		case 3:
+			f.Tags = map[string][]string{vpSym1("fname"): l}
+		}
+	}
+	m := NewReqFilterMatcher(f)
+	got := m.Match(e)
+	vpNoteBool("match", got)
+	vpAssert(got == specMatch(f, e), "C02.match-long-list")
 	vpReach("end")
 }
